@@ -312,7 +312,7 @@ type runner struct {
 	prevTree          *et.Node
 }
 
-const nSpaces = 5
+const nSpaces = 6
 
 func (r *runner) space(name string) {
 	r.ctx.Space(name)
@@ -522,15 +522,91 @@ func run(ctx *bex.Ctx) {
 		r.strings(2)
 		r.trees([]et.Kind{et.Str, et.Int}, 3, 3)
 		r.deep(2, et.NMapReps)
+		r.afterFailure(2)
 		r.codepoints()
 	} else {
 		r.scalars()
 		r.strings(3)
 		r.trees([]et.Kind{et.Str, et.Int}, 3, et.NMapReps)
 		r.deep(3, 1)
+		r.afterFailure(3)
 		r.codepoints()
 		r.treesWide()
 	}
+}
+
+// poisons: values whose export fails (or panics) after part of the document has been written.
+func poisons() []*et.Node {
+	failing := func(at int, panics bool, kids ...*et.Node) *et.Node {
+		l := et.L(et.LLazy, kids...)
+		if panics {
+			l.PanicAt = at
+		} else {
+			l.FailAt = at
+		}
+		return l
+	}
+	var out []*et.Node
+	for _, p := range []bool{false, true} {
+		out = append(out,
+			failing(1, p, et.S("x")),
+			failing(2, p, et.S("x"), et.S("y")),
+			et.L(et.LEager, et.S("a"), failing(2, p, et.I(1), et.I(2))),
+			et.M(et.MListMap, []string{"k"}, failing(1, p, et.I(1))),
+			et.M(et.MAppend, []string{"a", "b"}, et.S("v"), failing(2, p, et.S("q"), et.S("r"))),
+			et.L(et.LEager, et.M(et.MListMap, []string{"k", "l"}, et.L(et.LEager, et.S("in")), failing(1, p, et.S("z")))))
+	}
+	return out
+}
+
+// exportIgnoringFailure runs the exporter on a value whose export is expected to fail.
+func exportIgnoringFailure(b *et.Builder, n *et.Node) (failed bool) {
+	defer func() {
+		if r := recover(); r != nil {
+			failed = true
+		}
+	}()
+	val, err := b.Build(n)
+	if err != nil {
+		return false
+	}
+	return export.Export(funcGen.NewEmptyStack[value.Value](), val, export.JSON()) != nil
+}
+
+// afterFailure: every small tree is exported directly after an export that failed half way.
+func (r *runner) afterFailure(height int) {
+	ctx := r.ctx
+	r.space("after-failed-export")
+	sp := &et.ShapeSpace{Leaves: []et.Kind{et.Str, et.Int}}
+	ps := poisons()
+	var idx int64
+	sp.Each(height, func(s *et.Shape) bool {
+		for pi, p := range ps {
+			idx++
+			if !ctx.Mine(idx) {
+				continue
+			}
+			if ctx.Expired() {
+				return false
+			}
+			n := treePools.Instantiate(s, pi)
+			ctx.Begin(func() map[string]any { return map[string]any{"tree": n.ToRepro(), "after_failed_export_of": p.ToRepro()} })
+			ctx.Eval()
+			if exportIgnoringFailure(r.b, p) {
+				ctx.Add("preceding_exports_failed", 1)
+			} else {
+				ctx.Add("preceding_exports_did_not_fail", 1)
+			}
+			v := verify(r.b, n)
+			ctx.Outcome("after-failure/" + v.class)
+			r.prevTree = nil
+			if !v.ok {
+				ctx.Violate("after an export that failed half way: "+v.what, map[string]any{"tree": n.ToRepro(), "after_failed_export_of": p.ToRepro()}, v.expected, v.got, classify(r.b, n, v))
+			}
+		}
+		return true
+	})
+	ctx.SpaceDone(fmt.Sprintf("all %d tree shapes of height <= %d x %d preceding exports that fail or panic after part of the document was written (failing lazy list at top level, nested in a list, as map value behind other entries)", sp.Count(height), height, len(ps)))
 }
 
 // treesWide (thorough): four leaf classes at height <= 3.
@@ -574,7 +650,15 @@ func replay(repro map[string]any) (string, bool) {
 		}
 		return fmt.Sprintf("the document %q of the earlier export is unchanged after the later export", trunc(kept)), false
 	}
-	v := verify(et.NewBuilder(), n)
+	b := et.NewBuilder()
+	if pr, ok := repro["after_failed_export_of"]; ok {
+		pn, err := et.FromRepro(pr)
+		if err != nil {
+			return "cannot decode the preceding case: " + err.Error(), true
+		}
+		exportIgnoringFailure(b, pn)
+	}
+	v := verify(b, n)
 	if v.ok {
 		return fmt.Sprintf("document %q decodes to the value", v.doc), false
 	}
